@@ -69,3 +69,11 @@ Print Assumptions C39_errors.
 Theorem C39_pinned_refuted_env_dropped : ~ pinned_statement.
 Proof. exact pinned_refuted_env_dropped. Qed.
 Print Assumptions C39_pinned_refuted_env_dropped.
+
+(* observation (outside the statement, see design/C39.md): an Lmod unset reaches the command as the empty string *)
+Theorem C39_unset_reads_as_empty :
+  execute [("MODULESHOME", "/m"); ("X", "old"); ("HOME", "/h")]%string unset_text ["cmd"%string]
+  = Ran [("MODULESHOME", "/m"); ("X", ""); ("HOME", "/h")]%string ["cmd"%string] /\
+  findall unset_text = [("X", "")]%string.
+Proof. exact unset_reads_as_empty. Qed.
+Print Assumptions C39_unset_reads_as_empty.
